@@ -1,5 +1,6 @@
 import GeomV.C17.Proofs
 import GeomV.C17.DecMono
+import GeomV.C17.DecShortest
 /-!
 # C17 — the number clause: "exactly the same float64 coordinates"
 
@@ -11,6 +12,8 @@ import GeomV.C17.DecMono
                      even, `+Inf` exactly from `2^1024 − 2^970`) of the exact rational, for all `n/d > 0`.
 * `C17_toBits_sound` "parses to exactly float64 `u`" means: the token is an OGC `<signed numeric literal>`
                      and `u` is the sign-and-magnitude roundTiesToEven of the rational it denotes.
+* `C17_shortest_sound` "(shortest round-trip decimal form)": when the run-time test `Dec.isShortest` accepts a
+                     number token, no literal with fewer significant digits converts to the same binary64.
 * `C17_rne_unique`, `C17_rne_mono`  that specification determines the bit pattern, and is monotone.
 -/
 namespace GeomV.C17
@@ -55,7 +58,19 @@ theorem C17_rne_unique {q : ℚ} {b b' : Nat} (h : Dec.IsRNE q b) (h' : Dec.IsRN
 theorem C17_rne_mono {q q' : ℚ} {b b' : Nat} (hq : q ≤ q') (h : Dec.IsRNE q b) (h' : Dec.IsRNE q' b') :
     b ≤ b' := Dec.IsRNE.mono hq h h'
 
+/-- soundness of the shortest-form test applied to every number token of every encoder output -/
+theorem C17_shortest_sound (l : Dec.Lit) (h : Dec.isShortest l = true)
+    (hs : (Dec.normLit l).scale.natAbs < 5000) (l' : Dec.Lit) (p : ℕ) (hpos : 0 < l'.mant)
+    (hlt : l'.mant < 10 ^ p) (hle : 10 ^ p ≤ (Dec.normLit l).mant) (u : UInt64)
+    (hu' : Dec.litToBits l' = some u) :
+    Dec.litToBits (Dec.normLit l) ≠ some u ∧ Dec.magVal (Dec.normLit l) = Dec.magVal l :=
+  ⟨Dec.isShortest_sound l h hs l' p hpos hlt hle u hu', (Dec.magVal_normLit l).1⟩
+
 /-! non-vacuity: concrete instances -/
+example : (Dec.parseLit "0.30000000000000004".toList).map Dec.isShortest = some true := by decide +kernel
+example : (Dec.parseLit "0.10000000000000001".toList).map Dec.isShortest = some false := by decide +kernel
+example : (Dec.parseLit "0.30000000000000004".toList).map (fun l => decide ((Dec.normLit l).scale.natAbs < 5000)) = some true := by
+  decide +kernel
 example : Dec.toBits "0.1".toList = some 0x3fb999999999999a := by decide +kernel
 example : Dec.toBits "1e+21".toList = some 0x444b1ae4d6e2ef50 := by decide +kernel
 example : Dec.toBits "-5e-324".toList = some 0x8000000000000001 := by decide +kernel
